@@ -8,8 +8,8 @@ representations: the value is `get_num` of the fixnum or the `usize` conversion 
   unbound N or Term   :  instantiation_error;  N not an integer: type_error(integer);
   N < 0: domain_error(not_less_than_zero);  Term atomic: type_error(compound)
 The path conditions are encoded as they stand (the comparisons on N are bit-vector formulas), the
-unified location is compared with base + N as a bit-vector term. The partial-string arm (first
-character / rest) is outside (C20's string stepping)."""
+unified location is compared with base + N as a bit-vector term. The string arm (first
+character / rest) is pstr_arm_obligations below; the character iterator is C20's."""
 import re
 
 from .. import smt
@@ -346,6 +346,107 @@ def fabricate_obligations(mir, tagname):
     return st, queries, meta
 
 
+def pstr_arm_obligations(paths, tagname, fail_idx):
+    """arg/3 on a string (PStrLoc cell at byte offset l), per representation of N:
+       unified <=> N in {1, 2}, otherwise the goal fails;  N = 1: the first character c = char_iter(l).next()
+       is unified with register 3;  N = 2: if the string goes on after c, the string at l + len_utf8(c),
+       otherwise the cell at pstr_tail_idx(l + len_utf8(c)) (what follows the string) - with register 3."""
+    st, queries, meta = [], [], []
+    groups = {}
+    for p in paths:
+        tagc = [c for c in p.conds if c[0][0] == "disc" and c[0][1][0] == "app" and c[0][1][1].endswith("get_tag")]
+        tags = [tagname.get(c[2], str(c[2])) if c[1] == "==" else "other" for c in tagc]
+        if len(tags) != 2 or tags[1] != "PStrLoc" or p.end != "return":
+            continue
+        if any(e[0] == "call" and e[1].split("::")[-1] in ("instantiation_error", "type_error", "domain_error") for e in p.events):
+            continue
+        nvs = set()
+        for c in p.conds:
+            t = c[0]
+            if t[0] == "op" and t[1] == "Eq" and t[2][1] in (("c", 1), ("c", 2)):
+                nvs.add(t[2][0])
+        if len(nvs) != 1:
+            st.append({"obligation": "arg/3 string arm: N's value is one term per path", "ok": None})
+            continue
+        groups.setdefault(nvs.pop(), []).append(p)
+    if not groups:
+        st.append({"obligation": "arg/3 string arm: recognised", "ok": None})
+    for nv, ps in groups.items():
+        rep = "fixnum" if "get_num" in util.term_str(nv) else "bignum cell"
+        enc = Encoder()
+        n = enc.bv(nv)
+        ok_f, fail_f = [], []
+        shape = True
+        why = ""
+        kinds = set()
+        for p in ps:
+            cs = [enc.cond(c) for c in p.conds if c[0][0] == "op" and c[0][1] == "Eq" and c[0][2][0] == nv]
+            f = "(and true %s)" % " ".join(cs)
+            calls = [e for e in p.events if e[0] == "call"]
+            fails = [e[2] for e in p.events if e[0] == "store" and e[1].endswith(".%d" % fail_idx)]
+            uni = [e for e in calls if e[1].endswith("::unify") or e[1].endswith("::unify_char")]
+            if not uni:
+                if fails != [("c", 1)]:
+                    shape, why = False, "a path neither unifies nor fails"
+                fail_f.append(f)
+                continue
+            if fails:
+                shape, why = False, "a unifying path sets fail"
+            ok_f.append(f)
+            ci = [e for e in calls if e[1].endswith("Heap::char_iter")]
+            nx = [e for e in calls if e[1].endswith("Iterator>::next")]
+            gv = [e for e in calls if e[1].endswith("::get_value")]
+            if len(ci) != 1 or not nx or not gv or ci[0][2][1] != ("op", "cast:IntToInt", (gv[-1][3],)):
+                shape, why = False, "the iterator does not start at the string's own offset"
+                continue
+            loc = ci[0][2][1]
+            c1 = ("proj", ("proj", nx[0][3], " as Some"), ".0")
+            is1 = any(c[0] == ("op", "Eq", (nv, ("c", 1))) and c[1] != "==" for c in p.conds) or \
+                any(c[0] == ("op", "Eq", (nv, ("c", 1))) and c[1] == "==" and c[2] == 1 for c in p.conds)
+
+            def reg_of(t):
+                m3 = re.search(r"\[(_\d+)\]$", t[2]) if t[0] == "proj" else None
+                return p.env.get(m3.group(1)) if m3 else None
+            kinds.add("first" if is1 else "rest")
+            if is1:
+                uc = [e for e in calls if e[1].endswith("::unify_char")]
+                if len(uc) != 1 or uc[0][2][1] != c1 or reg_of(uc[0][2][2]) != ("c", 3) or len(nx) != 1:
+                    shape, why = False, "N = 1: not unify_char(first character, register 3)"
+                continue
+            pu = [e for e in calls if e[1].endswith("::push") and len(e[2]) > 1 and e[2][1][0] == "agg" and len(e[2][1][2]) == 2]
+            if len(pu) != 1 or len(nx) != 2 or reg_of(pu[0][2][1][2][0]) != ("c", 3):
+                shape, why = False, "N = 2: not one pair (register 3, rest) pushed after looking one character ahead"
+                continue
+            rest = pu[0][2][1][2][1]
+            lu = [e for e in calls if e[1].endswith("::len_utf8")]
+            if len(lu) != 1 or lu[0][2][0] != c1:
+                shape, why = False, "N = 2: the step is not the first character's len_utf8"
+                continue
+            after = ("proj", ("op", "AddWithOverflow", (loc, lu[0][3])), ".0")
+            more = any(c[0][0] == "app" and c[0][1].endswith("::is_some") and
+                       ((c[1] == "==" and c[2] == 1) or (c[1] == "not_in" and 0 in c[2])) for c in p.conds)
+            kinds.add("more" if more else "ends")
+            if more:
+                tg, v = _tag_of(rest)
+                if tg != "PStrLoc" or v != ("op", "cast:IntToInt", (after,)):
+                    shape, why = False, "N = 2, string goes on: rest is not PStrLoc(l + len_utf8(c))"
+            else:
+                # heap[pstr_tail_idx(l + len_utf8(c))]
+                okr = rest[0] == "proj" and rest[2] == "*" and rest[1][0] == "app" and rest[1][1].endswith("Index<usize>>::index") and \
+                    rest[1][2][1][0] == "app" and rest[1][2][1][1].endswith("pstr_tail_idx") and rest[1][2][1][2][0] == after
+                if not okr:
+                    shape, why = False, "N = 2, string ends: rest is not heap[pstr_tail_idx(l + len_utf8(c))]"
+        st.append({"obligation": "arg/3 on a string, N in a %s: N = 1 gives the first character, N = 2 the string one "
+                   "character on (or the cell after the string's end)" % rep,
+                   "ok": (shape if kinds == {"first", "rest", "more", "ends"} or not shape else None),
+                   "why": why or "path kinds seen: %s" % sorted(kinds)})
+        spec = "(or (= %s #x0000000000000001) (= %s #x0000000000000002))" % (n, n)
+        queries.append(enc.decls() + "\n(assert (not (and (= (or false %s) %s) (= (or false %s) (not %s)))))" % (
+            " ".join(ok_f), spec, " ".join(fail_f), spec))
+        meta.append({"obligation": "arg/3 on a string, N in a %s: unified <=> N in {1,2}, else fails" % rep})
+    return st, queries, meta
+
+
 def run(thorough=False):
     queries, meta, structural = [], [], []
     try:
@@ -482,6 +583,10 @@ def run(thorough=False):
         if not queries:
             raise core.Unsupported("no Str / Lis arm recognised")
         structural += functor_obligations(mir, tagname)
+        st3, q3, m3 = pstr_arm_obligations(paths, tagname, fail_idx)
+        structural += st3
+        queries += q3
+        meta += m3
         st2, q2, m2 = fabricate_obligations(mir, tagname)
         structural += st2
         queries += q2
